@@ -149,18 +149,31 @@ def s_loop(rng, nval):
     return _mk(prog, "loop_iterator_arithmetic", rng, nval, edges=edges)
 
 
-def s_irlevel(rng, nval):
-    """A constant behind a projection: folded (if at all) by IR-level constant propagation."""
+def s_irlevel(rng, nval, op=None, c1=None, shape=None):
+    """Constants the AST folder cannot see through (behind a projection, passed as a Signal parameter, result of
+    another IR-level fold): folded, if at all, by IR-level constant propagation. All eleven operators."""
     types = gen.Types(rng)
     t1, t2 = types.fresh(), types.fresh()
-    c1 = rng.choice([-7, -10, 7, 10, -1, 46341, 65536, -65536, INT_MAX, 3])
+    op = op or rng.choice(["/", "%", "*", "+", "-", "<<", ">>", ">>", "AND", "OR", "XOR", "**", "/", "%"])
+    if c1 is None:
+        c1 = rng.choice([-7, -10, 7, 10, -1, -16, -1000, 46341, 65536, -65536, INT_MAX, -INT_MAX, 3])
     c2 = rng.choice([2, 3, -2, -3, 65536, 46341, 7, 31])
-    op = rng.choice(["/", "%", "*", "+", "-", "<<", "/", "%"])
-    if op == "<<":
-        c2 = rng.randint(0, 31)
-    inner = ["b", op, ["p", ["t", t1, ["n", c1]], t2], ["n", c2]]
-    prog = [["input", "a", types.fresh(), gen.rand_value(rng, True)],
-            ["sig", "x", ["p", ["b", "+", ["v", "a"], inner], types.fresh()]]]
+    if op in ("<<", ">>"):
+        c2 = rng.randint(1, 31)
+    if op == "**":
+        c1, c2 = (c1 if abs(c1) <= 10 else rng.choice([-3, -2, 2, 3, 7])), rng.choice([0, 1, 2, 3, 5, 16, 31])
+    shape = shape or rng.choice(["projected", "projected", "signal_param", "negated", "nested"])
+    prog = [["input", "a", types.fresh(), gen.rand_value(rng, True)]]
+    if shape == "projected":
+        inner = ["b", op, ["p", ["t", t1, ["n", c1]], t2], ["n", c2]]
+    elif shape == "signal_param":
+        prog.append(["func", "f", [["Signal", "x"], ["int", "k"]], [], ["b", op, ["v", "x"], ["v", "k"]]])
+        inner = ["call", "f", [["n", c1], ["n", c2]]]
+    elif shape == "negated":
+        inner = ["b", op, ["neg", ["p", ["n", -c1], t2]], ["n", c2]]
+    else:
+        inner = ["b", op, ["b", "-", ["p", ["n", c1 + 10], t2], ["n", 10]], ["n", c2]]
+    prog.append(["sig", "x", ["p", ["b", "+", ["v", "a"], inner], types.fresh()]])
     return _mk(prog, "ir_level_folding", rng, nval, optimize=True)
 
 
@@ -189,6 +202,16 @@ def gen_cases(tier, seed):
         c = f(sub, nval)
         c["id"] = i
         cases.append(c)
+    # IR-level folding enumerated: every operator with a negative and a positive left operand, shapes in rotation
+    shapes = ["projected", "signal_param", "negated", "nested"]
+    k = 0
+    for op in ["+", "-", "*", "/", "%", "**", "<<", ">>", "AND", "OR", "XOR"]:
+        for c1 in ([-16, 7] if tier == "quick" else [-16, -1000, -7, -1, 7, 46341, 65536]):
+            sub = random.Random(rng.randrange(1 << 60))
+            c = s_irlevel(sub, nval, op=op, c1=c1, shape=shapes[k % 4])
+            k += 1
+            c["id"] = len(cases)
+            cases.append(c)
     return cases
 
 
